@@ -274,6 +274,10 @@ impl MyErr {
 }
 #[allow(non_camel_case_types)]
 pub type my_err_t = MyErr;
+/// returns a type that is not `parse_err_ty` itself but coerces to it (`Box<MyErr>` -> `Box<dyn Debug>`)
+pub fn my_err_boxed(s: &str) -> Box<MyErr> {
+    Box::new(my_err(s))
+}
 pub fn my_err_any<S: AsRef<str>>(s: S) -> MyErr {
     my_err(s.as_ref())
 }
